@@ -696,6 +696,9 @@ func resolvePlannedField(eCtx *executionContext, parentType *Object, source inte
 	var returnType Output
 	defer func() {
 		if r := recover(); r != nil {
+			// A failed field contributes null, never the value the
+			// resolver returned next to its error.
+			result = nil
 			handleFieldError(r, FieldASTsToNodeASTs(fp.fieldASTs), path, returnType, eCtx)
 			ok = true
 		}
